@@ -189,6 +189,10 @@ def oracle_system(system, created: List[Any], builder_made: bool) -> List[Tuple[
             bad.append(("leaf-with-children", f"{o!r} has children"))
         if isinstance(o, model.Module) and o.parent is not None and not isinstance(o.parent, model.Package):
             bad.append(("module-outside-package", f"{o!r} sits in {o.parent!r}"))
+        mismatch = builder_made and kind_mismatch(o)
+        if mismatch:
+            bad.append((mismatch, f"{o!r} is a {type(o).__name__} (in {o.parent!r}, {len(o.contents)} children) but its kind is {o.kind}"))
+            continue      # the more specific report; the place checks below would only repeat it
         if builder_made and isinstance(o, model.Function) and isinstance(o.parent, model.Class):
             if o.kind not in (model.DocumentableKind.METHOD, model.DocumentableKind.CLASS_METHOD,
                               model.DocumentableKind.STATIC_METHOD):
@@ -236,7 +240,47 @@ def oracle_system(system, created: List[Any], builder_made: bool) -> List[Tuple[
                 if u in pages and pages[u] is not o:
                     bad.append(("page-name-clash", f"{o!r} and {pages[u]!r} both use {u}"))
                 pages[u] = o
+        # ... summary pages are pages too (with a single root, index.html IS the root's page: by design)
+        fixed = set(summary_page_names(system))
+        if len(system.rootobjects) == 1:
+            fixed.discard("index.html")
+        from urllib.parse import unquote
+        for u, o in pages.items():
+            if unquote(u) in fixed:
+                bad.append(("page-name-clash:summary-page", f"the page of {o!r} and a summary page are both written to {unquote(u)}"))
     return bad
+
+
+def kind_mismatch(o) -> Optional[str]:
+    """the kind of an analysed object must be one its Python class can have: a Module is a module, a Class a class /
+    exception / interface, a Function a function or method; the variable kinds belong to Attributes"""
+    from pydoctor import model
+    K = model.DocumentableKind
+    if o.kind is None:
+        return None                      # not documented at all (e.g. only a @type field): no kind to judge
+    if isinstance(o, model.Package):
+        ok, what = {K.PACKAGE}, "module"
+    elif isinstance(o, model.Module):
+        ok, what = {K.MODULE}, "module"
+    elif isinstance(o, model.Class):
+        ok, what = {K.CLASS, K.EXCEPTION, K.INTERFACE}, "function-or-class"
+    elif isinstance(o, model.Function):
+        ok, what = {K.FUNCTION, K.METHOD, K.CLASS_METHOD, K.STATIC_METHOD}, "function-or-class"
+    else:
+        ok = set(K) - {K.PACKAGE, K.MODULE, K.CLASS, K.EXCEPTION, K.INTERFACE, K.FUNCTION, K.METHOD, K.CLASS_METHOD, K.STATIC_METHOD}
+        what = "attribute"
+    if o.kind in ok:
+        return None
+    if what == "module" and o.kind in (K.VARIABLE, K.INSTANCE_VARIABLE, K.CLASS_VARIABLE):
+        return "kind-mismatch:module-has-variable-kind"
+    if what == "function-or-class" and o.kind in (K.ATTRIBUTE, K.SCHEMA_FIELD):
+        return "kind-mismatch:function-or-class-has-zope-attribute-kind"
+    return "kind-mismatch:%s:%s" % (type(o).__name__.replace("ZopeInterface", ""), o.kind.name)
+
+
+def summary_page_names(system) -> List[str]:
+    from pydoctor.templatewriter import search, summary
+    return [p.filename for p in list(summary.summaryPages(system)) + list(search.searchpages)]
 
 
 def python_accepts(c, cache, depth=0) -> bool:
@@ -344,6 +388,15 @@ CORPUS = [
     [("pkg", True, "from pkg.origin import meth, K\n__all__ = ['meth', 'K']\n", None),
      ("pkg.origin", False, "class C:\n    def meth(self): pass\n    @staticmethod\n    def st(): pass\n    class K:\n        x = 1\n"
                             "meth = C.meth\nK = C.K\n", "pkg")],
+    # hunter round: two names of a base list resolve to one class (alias of an earlier definition + the later definition);
+    # legal Python (open: the resolved base is listed twice in the linearisation)
+    [("mod", False, "class A: pass\nOld = A\nclass A: pass\nclass C(Old, A): pass\n", None)],
+    # hunter round: a @var field of a package docstring names a SUB-MODULE (open: the Module gets kind VARIABLE)
+    [("pkg", True, '"""\nThe package.\n\n@var util: Helpers, see the sub-module.\n@ivar sub: a sub-package\n"""\n', None),
+     ("pkg.util", False, "def helper(): pass\n", "pkg"), ("pkg.sub", True, "", "pkg"), ("pkg.sub.x", False, "class K: pass\n", "pkg.sub")],
+    # hunter round: several roots, one named like a summary page (open: the two pages share a file name)
+    [("classIndex", False, "class Pupil: pass\n", None), ("other", False, "class Base: pass\nclass Derived(Base): pass\n", None)],
+    [("index", True, "", None), ("index.m", False, "x = 1\n", "index"), ("lib", False, "def f(): pass\n", None)],
     [("pkg", True, "from ._o import st as s2\n__all__ = ['s2']\n", None),
      ("pkg._o", False, "class C:\n    @staticmethod\n    def st(): pass\nst = C.st\n", "pkg")],
 ]
@@ -356,7 +409,7 @@ def stream_projects(ctx: Ctx, n: int) -> None:
         if i < len(CORPUS):
             units = [Unit(q, p, s, par) for q, p, s, par in CORPUS[i]]
         else:
-            g = Gen(ctx.rng, Knobs(dotted_names=True, member_alias=0.15))
+            g = Gen(ctx.rng, Knobs(dotted_names=True, member_alias=0.15, field_names_submodule=0.15, summary_root_names=0.06))
             units = g.project()
         with Recorder() as rec:
             crashed = None
@@ -417,6 +470,65 @@ class PostSnap:
         model.defaultPostProcess = self._orig
 
 
+def redefinition_alias_scenario(rng) -> List[Any]:
+    """one module in which classes are defined more than once and module-level aliases are taken between the
+    definitions (`Old = A` before the second `class A`); later classes derive from the names and the aliases.
+    CPython running the source decides whether it is a program (hunter round, finding 1)"""
+    from ..gen.project import Unit
+    lines: List[str] = []
+    names: List[str] = []      # names bound so far (classes and aliases)
+    defined: List[str] = []
+    aliased: List[Tuple[str, str]] = []     # (alias, class name it was taken from)
+    for step in range(rng.randint(3, 8)):
+        r = rng.random()
+        if defined and r < 0.3:
+            target = rng.choice(defined)
+            al = "Old" + target if rng.random() < 0.7 else "Al%d" % step
+            lines.append("%s = %s" % (al, target))
+            names.append(al)
+            aliased.append((al, target))
+        else:
+            if aliased and rng.random() < 0.5:
+                cn = rng.choice(aliased)[1]          # define again a class an alias was taken from
+            else:
+                cn = rng.choice(defined) if defined and r < 0.55 else rng.choice(["A", "B", "C", "D"])
+            pool = sorted(set(names) - {cn})
+            bases = rng.sample(pool, min(len(pool), rng.choice([0, 1, 1, 2, 2])))
+            pairs = [(a, c) for a, c in aliased if c != cn and a != cn]
+            if pairs and rng.random() < 0.4:
+                bases = list(rng.choice(pairs))      # an alias and the name it was taken from, as written
+                rng.shuffle(bases)
+            lines += ["class %s%s:" % (cn, "(%s)" % ", ".join(bases) if bases else ""), "    pass"]
+            names.append(cn)
+            defined.append(cn)
+    return [Unit("mod", False, "\n".join(lines) + "\n", None)]
+
+
+def oracle_linearisation_by_source(system, source: str) -> List[Tuple[str, str]]:
+    """C02's clause on linearisations for a one-module project, CPython being the judge of what is a program: when the
+    interpreter runs the source, every class's linearisation starts with the class, repeats nothing and holds each of
+    its resolved bases once (oracle_system can only ask CPython about the hierarchy pydoctor resolved)"""
+    from pydoctor import model
+    try:
+        exec(compile(source, "<c02-scenario>", "exec"), {"__name__": "mod"})
+    except Exception:
+        return []
+    bad: List[Tuple[str, str]] = []
+    for c in system.allobjects.values():
+        if not isinstance(c, model.Class):
+            continue
+        mro = c.mro(include_external=False, include_self=True)
+        if not mro or mro[0] is not c:
+            bad.append(("linearisation-head:python-runs-the-source", f"{c!r}: {mro!r}"))
+        for b in c.baseobjects:
+            k = sum(1 for x in mro if x is b)
+            if b is not None and k != 1:
+                bad.append(("linearisation-repeats-base:python-runs-the-source",
+                            f"{c!r}: resolved base {b!r} occurs {k} times in {mro!r} (bases as written: {[s for s, _ in c.rawbases]}, resolved to {c.bases})"))
+                break
+    return bad
+
+
 def stream_postprocess(ctx: Ctx, n: int) -> None:
     """model.defaultPostProcess on real systems: `subclasses` against PostProcess.subclasses and the direct
     "inverse of baseobjects" oracle; `_inherits_instance_variable_kind` against PostProcess.kindPass and the
@@ -433,6 +545,8 @@ def stream_postprocess(ctx: Ctx, n: int) -> None:
             units = g.project()
         elif i % 11 == 1:
             units = alias_scenario(ctx.rng)
+        elif i % 5 == 2:
+            units = redefinition_alias_scenario(ctx.rng)
         else:
             units = hierarchy_scenario(ctx.rng)
         src = {u.qname: u.source for u in units}
@@ -442,6 +556,10 @@ def stream_postprocess(ctx: Ctx, n: int) -> None:
         except Exception as e:
             ctx.fail("analysis-crash:" + type(e).__name__, {"units": src}, f"{type(e).__name__}: {e}")
             continue
+        if len(units) == 1 and "import" not in units[0].source:
+            for sig, what in oracle_linearisation_by_source(system, units[0].source):
+                ctx.fail(sig, {"units": src}, what)
+            ctx.count("postprocess:one-module-projects-judged-by-running-the-source")
         pre = getattr(system, "_verif_pre_kinds", None)
         if pre is None:
             ctx.count("postprocess:not-run")
@@ -515,6 +633,17 @@ def zope_project(rng) -> List[Any]:
         base = "Interface" if k == 0 or rng.random() < 0.6 else ifaces[rng.randrange(k)]
         isrc += ["class %s(%s):" % (n, base), "    '''doc of %s'''" % n, "    def meth%d(a):" % k, "        '''meth doc'''", "    attr%d = Attribute('an attribute')" % k]
     isrc += ["class NotAnInterface:", "    pass"]
+    if rng.random() < 0.3:
+        # hunter round: `name = Attribute(...)` / a schema field after a `def name` / `class name` of the same class body
+        isrc.insert(1, "from zope import schema")
+        body = ["class IDocument(Interface):"]
+        for nm, mk in rng.sample([("title", "def"), ("size", "def"), ("Meta", "class"), ("plain", None)], rng.randint(1, 4)):
+            if mk == "def":
+                body += ["    def %s():" % nm, "        'method'"]
+            elif mk == "class":
+                body += ["    class %s:" % nm, "        'a nested class'"]
+            body += ["    %s = %s" % (nm, rng.choice(["Attribute('attribute')", "schema.Int(description='field')", "Attribute('attribute')"]))]
+        isrc += body
     # interfaces made by CALLING an InterfaceClass subclass: at module level (documented as a class), in a class body,
     # and inside function / method bodies (local names: nothing to document, certainly no child of a function)
     dyn = rng.random() < 0.5
@@ -582,7 +711,7 @@ def stream_interfaces(ctx: Ctx, n: int) -> None:
             continue
         objs = list(system.allobjects.values())
         for sig, what in oracle_system(system, objs, True):
-            ctx.fail("interfaces:" + sig, {"units": src}, what)
+            ctx.fail(sig if sig.startswith("kind-mismatch:") else "interfaces:" + sig, {"units": src}, what)
         oid = {id(o): k for k, o in enumerate(objs)}
         implementers = [o for o in objs if isinstance(o, (Z.ZopeInterfaceClass, Z.ZopeInterfaceModule))]
         interfaces = [o for o in objs if isinstance(o, Z.ZopeInterfaceClass) and o.isinterface]
